@@ -44,7 +44,7 @@ Value& ABSExpression::value(Context & ctx) const
     if (val.isNull())
       return val;
     Integer l = *val.integer();
-    v = Value(Integer(l < 0 ? -l : l));
+    v = Value(Integer(l < 0 ? 0 - static_cast<uint64_t>(l) : l)); /* wraps around */
     break;
   }
   case Type::NUMERIC:
